@@ -29,7 +29,7 @@
 //     declaring 101 entries; a declared count larger than the entries supplied
 //     (the operand stack is empty at every block of a file in the standard
 //     form); bounds of unequal length (the four kinds that have bounds); low
-//     bound above high bound (the three range-mapping kinds); a destination of
+//     bound above high bound (the four kinds that have bounds); a destination of
 //     a type the kind does not take (cid*/notdef*: anything but integer;
 //     bfchar: anything but string or name; bfrange: anything but string or
 //     array); a source code / bound that is not a string; begincmap left out.
@@ -37,7 +37,7 @@
 //     reaches defineresource must give an error.
 //   - deliberately NOT treated as faults, because the property does not say
 //     what should happen: a declared count smaller than the entries supplied, a
-//     begin… closed by the end… of another kind, a reversed code-space range, an
+//     begin… closed by the end… of another kind, an
 //     array destination whose elements are not strings/names or whose length
 //     differs from the range, overlapping or duplicate source codes, endcmap
 //     twice, a block after endcmap.  Where such a case is explored
@@ -779,7 +779,7 @@ func main() {
 			"the operand stack is empty at every block (standard form), so a declared count above the entries supplied cannot be satisfied from older operands",
 			"the whole file is delivered by a bytes.Reader (read patterns are property C12's subject)",
 			"code values, destinations and names are fixed functions of (block position, entry index): the reader's control flow depends on types, lengths and byte order of codes, all of which are varied, not on particular values",
-			"not treated as faults (the property is silent): declared count below the entries supplied, mismatched begin/end kinds, reversed code-space range, array element types, overlapping codes",
+			"not treated as faults (the property is silent): declared count below the entries supplied, mismatched begin/end kinds, array element types, overlapping codes",
 		},
 		TrustedBase: []string{"verif/model/cmapmodel writer (token list → bytes)", "bytes.Reader"},
 		Families: func(tier string) []mc.Family {
